@@ -12,8 +12,8 @@ RULE = ("Hypothesis draws two rectangular tables over a small pool of hashable c
         "different numeric types), so rows repeat on both sides with different multiplicities; either side may be empty; "
         "strict on/off; for the record* forms b's columns are a permutation of a's. Oracle: collections.Counter arithmetic "
         "on row tuples: complement = a - b (strict: rows of a absent from b), intersection = a & b, diff = (b - a, a - b), "
-        "record forms after aligning by name; sort-based outputs as a sequence in lexical reference order, hash variants in "
-        "a's order; law complement(a,b) + intersection(a,b) == a. Non-trivial = some row occurs on both sides with "
+        "record forms after aligning by name; compared as multisets (the statement claims no output order for the sort-based "
+        "operators), the hash variants additionally as a sequence in a's order; law complement(a,b) + intersection(a,b) == a. Non-trivial = some row occurs on both sides with "
         "different multiplicities. Distinct by digest.")
 ASSUMPTIONS = [
     "rows have the header's length (the statement's domain); cells are hashable",
@@ -69,24 +69,24 @@ def check(case, ctx):
         return None
     try:
         if op == "complement":
-            return cmp(op, _run(etl.complement, A, B, strict=strict), RS.ref_complement(a, b, strict))
+            return cmp(op, _run(etl.complement, A, B, strict=strict), RS.ref_complement(a, b, strict), seq=False)
         if op == "intersection":
-            return cmp(op, _run(etl.intersection, A, B), RS.ref_intersection(a, b))
+            return cmp(op, _run(etl.intersection, A, B), RS.ref_intersection(a, b), seq=False)
         if op == "hashcomplement":
             return cmp(op, _run(etl.hashcomplement, A, B, strict=strict), RS.ref_complement(a, b, strict, ordered=False))
         if op == "hashintersection":
             return cmp(op, _run(etl.hashintersection, A, B), RS.ref_intersection(a, b, ordered=False))
         if op == "recordcomplement":
-            return cmp(op, _run(etl.recordcomplement, A, B, strict=strict), RS.ref_complement(a, ba, strict))
+            return cmp(op, _run(etl.recordcomplement, A, B, strict=strict), RS.ref_complement(a, ba, strict), seq=False)
         if op == "diff":
             added, subtracted = etl.diff(A, B, strict=strict)
-            return (cmp("diff.added", [tuple(r) for r in added], RS.ref_complement(b, a, strict))
-                    or cmp("diff.subtracted", [tuple(r) for r in subtracted], RS.ref_complement(a, b, strict)))
+            return (cmp("diff.added", [tuple(r) for r in added], RS.ref_complement(b, a, strict), seq=False)
+                    or cmp("diff.subtracted", [tuple(r) for r in subtracted], RS.ref_complement(a, b, strict), seq=False))
         if op == "recorddiff":
             added, subtracted = etl.recorddiff(A, B, strict=strict)
             ab = RS.align(a, b[0])
-            return (cmp("recorddiff.added", [tuple(r) for r in added], RS.ref_complement(b, ab, strict))
-                    or cmp("recorddiff.subtracted", [tuple(r) for r in subtracted], RS.ref_complement(a, ba, strict)))
+            return (cmp("recorddiff.added", [tuple(r) for r in added], RS.ref_complement(b, ab, strict), seq=False)
+                    or cmp("recorddiff.subtracted", [tuple(r) for r in subtracted], RS.ref_complement(a, ba, strict), seq=False))
         # law: complement + intersection reassemble a (non-strict), for both implementations
         for cf, inf in ((etl.complement, etl.intersection), (etl.hashcomplement, etl.hashintersection)):
             c = _run(cf, A, B)
